@@ -14,7 +14,10 @@
 //!   cl                              Agent::on_close
 //!   tk <d>                          advance the clock
 //!   hb <t>                          the driver writes its heartbeat (consumer heartbeat of the ring)
-//!   hc <v>                          1: the driver allocates this client's heartbeat counter, 2: reclaims it
+//!   hc <v>                          the driver's CountersManager on this client's heartbeat slot: 1 allocated (type 11, key = client id),
+//!                                   2 reclaimed, 3 allocated again for another client (other key), 4 allocated with another type
+//!   rf <b>                          1: the driver stops reading its command ring and the ring is filled up (no command fits any more);
+//!                                   0: the driver reads again (ring drained). While full the commands are not read back.
 //!   w                               do_work, nothing on the broadcast
 //!   wl                              the driver overruns the broadcast buffer, then do_work
 //!   wo                              the driver sends a message larger than the copy receiver's scratch buffer, then do_work
@@ -35,6 +38,7 @@ use std::sync::{Arc, Mutex};
 use std::time::Duration;
 
 use aeron_rs::client_conductor::ClientConductor;
+use aeron_rs::command::control_protocol_events::AeronCommand;
 use aeron_rs::concurrent::agent_runner::Agent;
 use aeron_rs::concurrent::atomic_buffer::{AlignedBuffer, AtomicBuffer};
 use aeron_rs::concurrent::broadcast::broadcast_buffer_descriptor;
@@ -162,6 +166,7 @@ struct Client {
     log_file: CString,
     client_id: i64,
     next_h: i64,
+    full: bool,
     held: HashMap<(u8, i64), Vec<(i64, Handle)>>,
     // keep the memory alive for as long as the (never freed) conductor may be referenced by handles
     _bufs: Vec<AlignedBuffer>,
@@ -213,6 +218,7 @@ impl Client {
             log_file: CString::new(log_file).unwrap(),
             client_id,
             next_h: 0,
+            full: false,
             held: HashMap::new(),
             _bufs: vec![to_driver, to_clients, counter_metadata, counter_values],
         }
@@ -477,9 +483,35 @@ impl Client {
             },
             "hc" => {
                 let off = CountersReader::metadata_offset(HB_SLOT);
-                self.counter_metadata.put::<i32>(off + *counters::TYPE_ID_OFFSET, 11);
-                self.counter_metadata.put::<i64>(off + *counters::KEY_OFFSET, self.client_id);
-                self.counter_metadata.put_ordered::<i32>(off, if a[0] == 1 { counters::RECORD_ALLOCATED } else { counters::RECORD_RECLAIMED });
+                let (ty, key, state) = match a[0] {
+                    1 => (11, self.client_id, counters::RECORD_ALLOCATED),
+                    2 => (11, self.client_id, counters::RECORD_RECLAIMED),
+                    3 => (11, self.client_id.wrapping_add(1000), counters::RECORD_ALLOCATED),
+                    _ => (12, self.client_id, counters::RECORD_ALLOCATED),
+                };
+                self.counter_metadata.put::<i32>(off + *counters::TYPE_ID_OFFSET, ty);
+                self.counter_metadata.put::<i64>(off + *counters::KEY_OFFSET, key);
+                self.counter_metadata.put_ordered::<i32>(off, state);
+                ok_list(&[])
+            },
+            "rf" => {
+                if a[0] == 1 {
+                    // a silent driver: fill the ring until not even the smallest command (16 bytes + header) fits
+                    let filler = AlignedBuffer::with_capacity(8192);
+                    let fb = AtomicBuffer::from_aligned(&filler);
+                    let mut len = self.ring.max_msg_len();
+                    while len >= 16 {
+                        if self.ring.write(AeronCommand::ClientKeepAlive, fb, 0, len).is_err() {
+                            len /= 2;
+                        }
+                    }
+                    while self.ring.write(AeronCommand::ClientKeepAlive, fb, 0, 16).is_ok() {}
+                    self.full = true;
+                } else {
+                    self.ring.read_all(|_t, _b: AtomicBuffer| {});
+                    self.ring.read_all(|_t, _b: AtomicBuffer| {});
+                    self.full = false;
+                }
                 ok_list(&[])
             },
             "w" | "wl" | "wo" | "we" => {
@@ -598,7 +630,7 @@ fn run_case(line: &str, log_file: &str) -> String {
                     Err(()) => ("Panic".to_string(), true),
                 };
                 let cbs = canon(LOG.with(|l| l.borrow().clone())).join("; ");
-                let cmds = if stop { String::new() } else { vcommon::catch(|| client.drain_commands()).map(|v| v.join("; ")).unwrap_or_default() };
+                let cmds = if stop || client.full { String::new() } else { vcommon::catch(|| client.drain_commands()).map(|v| v.join("; ")).unwrap_or_default() };
                 let _ = tx.send(format!("({}, [{}], [{}])", res, cbs, cmds));
                 if stop {
                     break;
